@@ -239,11 +239,21 @@ func protoNumberEncodeMethod(typ string, packed bool) string {
 func getExtensions(protoFile *protogen.File) func(*protogen.Message) []*protogen.Field {
 	// build a lookup of all extensions keyed by the extendee
 	extensionDict := make(map[protogen.GoIdent][]*protogen.Field)
-	for _, m := range protoFile.Messages {
-		for _, f := range m.Extensions {
-			extensionDict[f.Extendee.GoIdent] = append(extensionDict[f.Extendee.GoIdent], f)
+	// extensions declared at the file level
+	for _, f := range protoFile.Extensions {
+		extensionDict[f.Extendee.GoIdent] = append(extensionDict[f.Extendee.GoIdent], f)
+	}
+	// extensions declared in the scope of a message, at any nesting depth
+	var collect func(msgs []*protogen.Message)
+	collect = func(msgs []*protogen.Message) {
+		for _, m := range msgs {
+			for _, f := range m.Extensions {
+				extensionDict[f.Extendee.GoIdent] = append(extensionDict[f.Extendee.GoIdent], f)
+			}
+			collect(m.Messages)
 		}
 	}
+	collect(protoFile.Messages)
 	return func(msg *protogen.Message) []*protogen.Field {
 		exts := extensionDict[msg.GoIdent]
 		return exts
